@@ -88,7 +88,7 @@ def run_director(c):
             self.k += 1
             if i >= len(hist):
                 return {}
-            col, ops = hist[i]
+            col, ops = hist[i][0], hist[i][1]
             upd, seed = py_update_ts(col, ops, tsi)
             if seed is not None:
                 random.seed(seed)
@@ -109,7 +109,7 @@ def run_director(c):
             except Exception as e:
                 msg = str(e)
                 inherit_before = any(op[0] == 'divide' and any(d[1] is None for d in op[2])
-                                     for _, ops in hist[:tick + 1] for op in ops)
+                                     for e_ in hist[:tick + 1] for op in e_[1])
                 sig = 'divide-copies-pending' if ('Trying to send command' in msg and inherit_before) else 'engine-raised'
                 problems.append(('engine raised at tick %d: %s: %s' % (tick, type(e).__name__, msg[:160]), sig))
                 break
